@@ -1,5 +1,8 @@
 import Mdsort.Proofs.WorldOwn
 import Mdsort.Proofs.Captures
+import Mdsort.Proofs.WorldFds
+import Mdsort.Proofs.ExecStdin
+import Mdsort.Proofs.WorldFdsEx
 import Mdsort.Proofs.ExecStatus
 import Mdsort.Proofs.ExecSeqEx
 
@@ -308,5 +311,127 @@ theorem C13_exec_stdin_sees_content_false : ¬ C13_exec_stdin_sees_content := by
   simp only [Proofs.ExecSeq.forkContent] at hcont
   rw [hcont] at hdata
   exact Proofs.ExecSeq.ex_differ hdata
+/-! ## Descriptor hygiene: what is open when a child is forked
+
+`Model.openFds tr` (Model/Fds.lean) is the descriptor table as a view of the trace: the handles created by the calls of
+`tr` (a successful `opendir`, `openat`, `open`, `fopen`, `fcntl(F_DUPFD_CLOEXEC)`, `mkostemp`) and not yet released
+(`close`, `closedir`, `fclose` release whatever they return); `openFdsBy` keeps the creating call with each handle.  The
+standard descriptors 0, 1, 2 are not created by a call of the run and are not in the list - they are the
+configuration-independent part of the table.  Everything is stated for ARBITRARY results of the calls (`runOracle`):
+every behaviour of the file system, every fault, every interleaving with other processes.
+
+`Proofs.Own.FdsAre tr S`: the open descriptors after `tr` are exactly the multiset `S` (every handle as often in
+`openFds tr` as in `S`).  `Proofs.Own.ForkFds tr`: there are `ds`, `m`, `s` with `FdsAre tr (ds ++ [m, s])`, where
+
+* `ds` are at most two directory streams, each returned by a successful `opendir` of the trace (the maildir being
+  walked - `new`, `cur` or the stdin spool - and, after a move or flag action, the maildir the message is in now);
+* `m` is the descriptor of the message, returned by a successful `openat(O_RDONLY|O_CLOEXEC)` of the trace;
+* `s` is the descriptor `exec()` makes the child's standard input (`Proofs.Own.ChildStdin tr s`): the call just before
+  the `fork` is the successful `open("/dev/null", O_RDONLY|O_CLOEXEC)` that returned `s`, or it is the successful
+  `lseek(s, 0, SEEK_SET)` of `message_get_fd` on a descriptor `s` obtained from `fcntl(F_DUPFD_CLOEXEC)` (the whole
+  message) or from `mkostemp(O_CLOEXEC)` (decoded body / one part);
+
+and nothing else: no descriptor of an earlier message, no write descriptor of a file being created, no temporary file, no
+stream of the configuration file, no third directory. -/
+
+/-- **Descriptor hygiene.**  For every configuration, registry, input and for ARBITRARY results of all calls: at every
+`fork` issued by a run of `main` - maildir mode or stdin mode, whatever actions precede the exec, inside or outside an
+attachment block - the descriptors the run has created and not released are exactly those `ForkFds` lists. -/
+theorem C13_fd_hygiene (env : PEnv) (orc : EvalOracles) (ok : Bool) (conf : List ConfBlock) (files : Files) (input : Bytes)
+    (orcl : Nat → Call → Res) (j : Nat) (r : Res)
+    (h : (runOracle orcl (mainP env orc ok conf files input) 0 []).2[j]? = some (.fork, r)) :
+    Proofs.Own.ForkFds ((runOracle orcl (mainP env orc ok conf files input) 0 []).2.take j) :=
+  Proofs.Own.fd_hygiene env orc ok conf files input orcl j r h
+
+/-- **... and each of them was born close-on-exec.**  At every `fork`, every open descriptor, paired with the call that
+created it (`openFdsBy`), was created by a successful call of the trace whose model constructor is a close-on-exec form
+(`Call.cloexec`: `opendir`, `openRd`, `openExcl`, `openPath`, `dupfd`, `mkostemp`) - the one constructor that is not,
+`fopen` of the configuration file, is the first call of the run and its stream is closed by the second. -/
+theorem C13_fd_cloexec (env : PEnv) (orc : EvalOracles) (ok : Bool) (conf : List ConfBlock) (files : Files) (input : Bytes)
+    (orcl : Nat → Call → Res) (j : Nat) (r : Res)
+    (h : (runOracle orcl (mainP env orc ok conf files input) 0 []).2[j]? = some (.fork, r)) :
+    ∀ p ∈ openFdsBy ((runOracle orcl (mainP env orc ok conf files input) 0 []).2.take j),
+      p.2.cloexec = true ∧ (p.2, Res.ok p.1) ∈ (runOracle orcl (mainP env orc ok conf files input) 0 []).2.take j :=
+  Proofs.Own.fd_hygiene_cloexec env orc ok conf files input orcl j r h
+
+/-! Non-vacuity (Proofs/WorldFdsEx.lean): two evaluated runs of `main` over the maildir `/m` with one message, rule
+`match all exec "true"` resp. `match all exec stdin "cat"`, every call answered from a fixed list.  The `fork` is call 8
+resp. 9; the table there is `[(4, opendir /m/new), (5, openat 1.h), (6, open /dev/null)]` resp.
+`[(4, opendir /m/new), (5, openat 1.h), (6, dup of 5)]` with `lseek 6` as the call before; at the end nothing is open. -/
+example :
+    (Proofs.FdsEx.trace false)[8]? = some (.fork, .ok 0) ∧
+    openFdsBy ((Proofs.FdsEx.trace false).take 8) =
+      [(4, .opendir Proofs.exNew), (5, .openRd 4 Proofs.exName), (6, .openPath (ofString "/dev/null"))] ∧
+    openFds ((Proofs.FdsEx.trace false).take 8) = [4, 5, 6] ∧ openFds (Proofs.FdsEx.trace false) = [] ∧
+    (Proofs.FdsEx.trace true)[9]? = some (.fork, .ok 0) ∧
+    openFdsBy ((Proofs.FdsEx.trace true).take 9) = [(4, .opendir Proofs.exNew), (5, .openRd 4 Proofs.exName), (6, .dupfd 5)] ∧
+    ((Proofs.FdsEx.trace true).take 9).getLast? = some (.lseek 6, .ok 0) ∧ openFds (Proofs.FdsEx.trace true) = [] :=
+  Proofs.FdsEx.tables
+
+example : Proofs.Own.ForkFds ((Proofs.FdsEx.trace false).take 8) ∧ Proofs.Own.ForkFds ((Proofs.FdsEx.trace true).take 9) :=
+  ⟨C13_fd_hygiene _ _ _ _ _ _ _ 8 _ Proofs.FdsEx.tables.1, C13_fd_hygiene _ _ _ _ _ _ _ 9 _ Proofs.FdsEx.tables.2.2.2.2.1⟩
+
+/-- The constructors and their flags: which calls create a descriptor, and which of these are close-on-exec forms. -/
+theorem C13_cloexec_forms (c : Call) :
+    (c.opensFd = true ↔ (∃ p, c = .opendir p) ∨ (∃ d n, c = .openRd d n) ∨ (∃ d n, c = .openExcl d n) ∨ (∃ p, c = .openPath p) ∨
+      (∃ p, c = .fopen p) ∨ (∃ fd, c = .dupfd fd) ∨ (∃ t, c = .mkostemp t)) ∧
+    (c.cloexec = true ↔ c.opensFd = true ∧ ∀ p, c ≠ .fopen p) := by
+  cases c <;> simp [Call.opensFd, Call.cloexec]
+
+/-- **The child's standard input without `stdin`** is `/dev/null`: an exec entry without the `stdin` option opens
+`/dev/null` (read-only, close-on-exec) as its first call; if that succeeds the very next call is the `fork` (so
+`ChildStdin` holds with that descriptor); if it fails no child is started and the entry is an error. -/
+theorem C13_stdin_devnull (env : PEnv) (mh : Match) (st : ExecSt) (orcl : Nat → Call → Res) (i : Nat) (tr : List (Call × Res))
+    (hty : mh.ty = .exec) (hs : mh.execStdin = false) :
+    (∀ h, orcl i (.openPath Proofs.Own.devNull) = .ok h →
+      ∃ r rest, (runOracle orcl (execOne env mh st) i tr).2 =
+        tr ++ (Call.openPath Proofs.Own.devNull, Res.ok h) :: (Call.fork, r) :: rest) ∧
+    ((∀ h, orcl i (.openPath Proofs.Own.devNull) ≠ .ok h) →
+      (runOracle orcl (execOne env mh st) i tr).2 = tr ++ [(Call.openPath Proofs.Own.devNull, orcl i (.openPath Proofs.Own.devNull))] ∧
+      (runOracle orcl (execOne env mh st) i tr).1.2 = true) :=
+  Proofs.Own.exec_nostdin_child env mh st orcl i tr hty hs
+
+/-- **The child's standard input with `stdin`** (with `C11_exec_stdin`): an exec entry with the `stdin` option first runs
+`message_get_fd` for the message or the part the entry refers to (`Proofs.Own.execPart`); if that yields no descriptor
+no child is started and the entry is an error; if it yields `fd`, the run of the entry is: the calls `L0` of
+`message_get_fd`, none of which failed, by which `fd` was filled with the complete current message / the decoded body /
+the re-serialised part (`Spec.HandedOver`, see `C11_exec_stdin`), then the successful `lseek(fd, 0)`, then - as the very
+next call - the `fork`: the child reads that content from offset 0. -/
+theorem C13_stdin_content (env : PEnv) (mh : Match) (st : ExecSt) (orcl : Nat → Call → Res) (i : Nat) (tr : List (Call × Res))
+    (hty : mh.ty = .exec) (hs : mh.execStdin = true) :
+    ((runOracle orcl (messageGetFd env st.ms (Proofs.Own.execPart mh st) mh.execBody) i tr).1 = none →
+      (runOracle orcl (execOne env mh st) i tr).2 =
+        (runOracle orcl (messageGetFd env st.ms (Proofs.Own.execPart mh st) mh.execBody) i tr).2 ∧
+      (runOracle orcl (execOne env mh st) i tr).1.2 = true ∧
+      ∀ x ∈ (runOracle orcl (execOne env mh st) i tr).2.drop tr.length, x.1 ≠ .fork) ∧
+    (∀ fd, (runOracle orcl (messageGetFd env st.ms (Proofs.Own.execPart mh st) mh.execBody) i tr).1 = some fd →
+      ∃ L0 r rf rest, (runOracle orcl (execOne env mh st) i tr).2 = tr ++ L0 ++ [(.lseek fd, r)] ++ (Call.fork, rf) :: rest ∧
+        r.isErr = false ∧ (∀ x ∈ L0, Spec.failed x = false) ∧
+        Spec.HandedOver env st.ms (Proofs.Own.execPart mh st) mh.execBody fd L0) := by
+  obtain ⟨h1, h2⟩ := Proofs.Own.exec_stdin_child env mh st orcl i tr hty hs
+  refine ⟨fun hn => ⟨(h1 hn).1, (h1 hn).2, ?_⟩, fun fd hfd => ?_⟩
+  · rw [(h1 hn).1]
+    have hq := (Proofs.Own.wp_sound (R := fun _ _ => True) (I := fun _ c => c ≠ .fork) orcl (fun _ _ => True.intro)
+      (Proofs.Own.wp_calls (P := fun _ => True) (C := fun c => c ≠ .fork) (fun _ _ h => h)
+        (Proofs.Own.nofork_messageGetFd env st.ms (Proofs.Own.execPart mh st) mh.execBody) (Proofs.Own.All.trivial _) tr) i)
+    obtain ⟨-, ⟨L, hL⟩, hall⟩ := hq
+    intro x hx
+    rw [hL, List.drop_left] at hx
+    obtain ⟨k, hk, hxk⟩ := List.mem_iff_getElem.1 hx
+    exact hall (tr.length + k) x.1 x.2 (by omega) (by rw [hL, List.getElem?_append_right (by omega)]; simp [hxk, hk])
+  · obtain ⟨rf, rest, he⟩ := h2 fd hfd
+    obtain ⟨L0, r, hg, hr, hf, hh⟩ := Proofs.exec_stdin_handed_over env st.ms (Proofs.Own.execPart mh st) mh.execBody orcl i tr fd hfd
+    exact ⟨L0, r, rf, rest, by rw [he, hg], hr, hf, hh⟩
+
+/-! Non-vacuity of the two statements about the child's standard input: an exec entry without and with `stdin`; in the
+evaluated runs above the call before the `fork` is `open("/dev/null")` (call 7 of the first run) resp. `lseek` on the
+duplicate of the message's descriptor (call 8 of the second). -/
+example : ({ ty := .exec, lno := 1, part := 0 } : Match).ty = .exec ∧
+    ({ ty := .exec, lno := 1, part := 0 } : Match).execStdin = false ∧
+    ({ ty := .exec, lno := 1, part := 0, execStdin := true } : Match).execStdin = true := ⟨rfl, rfl, rfl⟩
+
+example : (Proofs.FdsEx.trace false)[7]? = some (.openPath Proofs.Own.devNull, .ok 6) ∧
+    (Proofs.FdsEx.trace true)[7]? = some (.dupfd 5, .ok 6) ∧ (Proofs.FdsEx.trace true)[8]? = some (.lseek 6, .ok 0) :=
+  Proofs.FdsEx.before_fork
 
 end Mdsort.Props
